@@ -34,7 +34,7 @@ PROPS = {
                  covers=["get-present", "get-absent", "compacted", "done"]),
         ],
         bounds=dict(quick="histories of 2 symbolic writes (+1 further write) over 2 prefix-related names; values of 1 or 9 symbolic bytes; expected revisions unconstrained 64-bit; read revision symbolic in [first, committed] or 0; 5 ranges; limits 0..n+1; revision base 5; reads at every revision from the floor up after one arbitrary step from an arbitrary invariant-satisfying state of one key (0..2 versions)",
-                    thorough="histories of 3 writes over 2 names / 2 writes over 3 names (+1 further write)"),
+                    thorough="histories of 3 writes over 2 names (get, count), 2 writes over 3 names (list), 2 writes + 1 further write (re-read); the inductive step over 0..3 versions"),
         outside="reads below the compaction floor (C08); engines' own snapshot isolation (C11); keys outside the name set",
         assumptions=["storage engine honours the documented KvStorage contract (model store zzmodel.Store; adapters checked in C11)"],
     ),
@@ -50,7 +50,7 @@ PROPS = {
             dict(run=B + "VerifC01Seq", name="C01_seq4", thorough=dict(ops=4, keys=1, val9=0), tiers=["thorough"], covers=["done"]),
         ],
         bounds=dict(quick="2 concurrent clients on 1 key after a 1-write history (initial states: never existed, live, deleted), every interleaving of their store operations and revision dealing with at most 1 preemption; sequential histories of 3 writes; expected revisions unconstrained 64-bit; both conflict-reporting styles of the engine contract; the same two clients after fixed key histories (deleted with the mark present, two versions, deleted and re-created); one write from an arbitrary store state of one key satisfying the representation invariant (0..2 versions with symbolic revisions, deletion marks, every allowed form of the index record, any compaction record), invariant re-established (inductive step)",
-                    thorough="2 clients after 2-write histories with at most 2 preemptions; sequential histories of 3 writes over 2 keys"),
+                    thorough="the quick harnesses with 2 scheduling deviations for both races; the inductive step over 0..3 versions; sequential histories of 3 writes over 2 keys and of 4 writes over 1 key"),
         outside="engines' own transaction isolation (assumed by the contract store; adapters in C11); unknown-outcome faults (C09); more than 2 concurrent clients; deleted-and-compacted initial state is covered by C07's after-compaction write",
         assumptions=["an unguarded delete (expected revision 0) is executed as 'delete the version I read'; its failure is accepted when a concurrent write to the key succeeded while it was in flight"],
     ),
@@ -64,7 +64,7 @@ PROPS = {
             dict(run=B + "VerifC05Fanout", quick=dict(watches=3, events=3), thorough=dict(watches=3, events=5), covers=["several-matching", "some-filtered", "done"]),
         ],
         bounds=dict(quick="sequential client: 2-write history, watch from a symbolic start revision (0, below/inside/at/above the cached window) on 4 prefixes, 1 further write, event cache of 2 entries (wraps), optionally served by a node that has just taken over (empty cache); fan-out: 3 watches on different prefixes and one broadcast batch of 3 put/delete events on any of 4 keys; ring: sizes 1..3 with symbolic counters and revisions; hand-over: watch registration racing 1 concurrent write with the sequencer and fan-out threads in the schedule (<= 1 delay); slow consumer: 5 queued batches, subscriber buffers of 1, consumer/forwarder/fan-out/removal interleaved (<= 2 delays)",
-                    thorough="2 keys, 2 further writes; ring sizes 1..5; hand-over with 2 concurrent writes and 2 delays; 6 batches and 3 delays"),
+                    thorough="2 keys for the sequential client; ring sizes 1..5; hand-over with 2 concurrent writes and 2 deviations; 6 batches and 3 deviations for the slow consumer; broadcast batches of 5 events"),
         outside="real channel capacities (10000 / 100) other than through the isolated fan-out harness; more than 2 scheduling delays; more than 3 watches on one node, broadcast batches of more than 3 (thorough 5) events",
     ),
     "C07": dict(
@@ -78,7 +78,7 @@ PROPS = {
                  covers=["compacted", "get-present", "get-absent", "done"]),
         ],
         bounds=dict(quick="histories of 2 writes on 1 key (multi-version, tombstones, re-created), compaction at every revision R in (base, current], one fault (error / unknown-applied / compactor dies) at any compaction delete, reads at every R' >= R and latest, one further write; compaction racing one symbolic write (create / update / delete) on a key with a tombstone, two live versions or a re-created key, interleaved at the store operations, revision dealing and request boundaries with <= 1 scheduling delay; compaction ranges for prefix /r with 0..2 skipped prefixes of symbolic bytes (conditions of KubeBrainOption.Validate assumed) against a symbolic raw key of 2..5 bytes; a whole write (any kind, symbolic expectation) placed before any of the first 8 store operations of the compaction or after it (3 key histories); one compaction at any revision from an arbitrary invariant-satisfying state of one key (0..2 versions), reads from the floor up unchanged, invariant re-established",
-                    thorough="histories of 3 writes, up to 2 faults; the race with <= 2 scheduling delays; 12 positions for the whole write"),
+                    thorough="histories of 3 writes, up to 2 faults; the race with <= 2 scheduling deviations; 12 positions for the whole write; skipped prefixes of up to 6 bytes; the inductive compaction step over 0..3 versions"),
         outside="time-based expiry (C17); more than one concurrent writer during the scan; more than 2 skipped prefixes or skipped prefixes longer than <prefix>+3 bytes",
     ),
     "C08": dict(
@@ -90,7 +90,7 @@ PROPS = {
         bounds=dict(quick="1-write history, 2 compaction requests with unconstrained 64-bit revisions (increasing, repeated, decreasing, 0, above current), then an unlimited / limited / streamed range read at any revision; "
                           "race: 3 fixed key histories (tombstone, two versions, re-created) with symbolic values, one unlimited / paginated / streamed read at any older revision r racing one compaction at any c > r, "
                           "every interleaving of their store operations with at most 1 deviation from the default scheduler, engine with and without snapshot reads",
-                    thorough="2-write history, 3 requests interleaved with writes; race with at most 2 scheduling deviations"),
+                    thorough="3 compaction requests after a 1-write history; the racing read with at most 2 scheduling deviations"),
         outside="Count (always served at the current revision); more than one compaction racing a read",
     ),
     "C13": dict(
@@ -101,7 +101,7 @@ PROPS = {
                  covers=["partitioned", "iterator-fault", "done"]),
         ],
         bounds=dict(quick="2-write histories on 1 key, 2 partitions with the border at Encode(name, rev) for any 64-bit rev (index record, inside versions, beyond), pieces reported in any order; unlimited list, count, streamed range at every readable revision; retry: 3 keys (one updated), 1 border, one transient iterator fault at any of the first 8 iterator steps of an unlimited list / count / streamed range at the latest revision",
-                    thorough="2 keys, up to 3 partitions"),
+                    thorough="2 keys, up to 3 partitions; the retry harness with 2 borders and a fault at any of the first 12 iterator steps"),
         outside="borders that are not well-formed internal keys; a retry after a batch of the failed attempt was already sent (batches hold 300 keys); more than one engine fault per read",
     ),
     "C02": dict(
@@ -111,7 +111,7 @@ PROPS = {
             dict(run=B + "VerifC01Race", name="C02_Race", quick=dict(ops=1, keys=1, val9=0, preempt=1), thorough=dict(ops=1, keys=2, val9=0, preempt=1), covers=["both-succeed", "done"]),
         ],
         bounds=dict(quick="revision generator: 2 concurrent Deal + 1 Commit, all interleavings of its atomic operations with <= 2 preemptions, symbolic start value; header >= data on Get/List/limited List issued while a stored write is not yet reported readable (1-write history, read revision symbolic); uniqueness / real-time order / per-key monotonicity on the 2-client harness of C01",
-                    thorough="3 preemptions; 2-write histories over 2 keys"),
+                    thorough="3 scheduling deviations on the generator; 2-write histories over 2 keys for the header clause; the two concurrent clients over 2 keys (1 deviation)"),
         outside="more than 2 concurrent dealers; Commit(r) with r above the dealt counter racing Deal (only at leader start)",
     ),
     "C04": dict(
@@ -120,7 +120,7 @@ PROPS = {
             dict(run=B + "VerifC04Resolve", name="C04_faults", quick=dict(ops=0, val9=0, preempt=1, faults=1, sequencer=0), thorough=dict(ops=0, val9=0, preempt=2, faults=1, sequencer=0), covers=["storage-fault", "request-error", "done"]),
         ],
         bounds=dict(quick="2 concurrent requests of any kind on 1 key with unconstrained expected revisions (incl. far-future / 'negative'), the sequencer thread taking part in the schedule exploration (<= 1 preemption), and, separately, one storage fault (error / unknown-applied / unknown-lost) on any commit",
-                    thorough="fault and sequencer together; 1-write history; 2 faults, 2 preemptions"),
+                    thorough="the sequencer in the schedule together with one storage fault; 2 scheduling deviations with one fault"),
         outside="more than 2 concurrent requests; the retry loop firing during the requests (C09)",
     ),
     "C06": dict(
@@ -129,7 +129,7 @@ PROPS = {
             dict(run=B + "VerifC06Race", quick=dict(preempt=2), thorough=dict(preempt=3), covers=["read-saw-racing-write", "read-missed-racing-write", "done"], stress=10),
         ],
         bounds=dict(quick="1-write history, list at latest (R), watch from R+1, 2 further symbolic writes (successful and failed) with an optional compaction at any revision in between, reconstruction compared with the list at the latest revision R' and with the reference model; alternatively one more write and then the watch goes to a node that has just taken over (empty event cache): refused or complete; the range read racing a concurrent create and the sequencer (interleaved at store operations, revision dealing and committing, <= 2 scheduling delays), then watch + 1 further write",
-                    thorough="2 keys, 3 further writes; 3 delays"),
+                    thorough="2 keys; the racing range read with 3 scheduling deviations"),
         outside="the watch registration racing writes (C05 hand-over harness); intermediate R' (only the latest is compared); more than one concurrent writer",
     ),
     "C09": dict(
@@ -144,7 +144,7 @@ PROPS = {
                  covers=["unknown-outcome", "compaction-capped", "done"]),
         ],
         bounds=dict(quick="1-write history; one create/update/delete (symbolic expectation) whose commit is answered 'unknown' in both variants; 1 further symbolic write to the same key; optional Compact(0) while unresolved; the repair loop with symbolic elapsed time; separately a fault of any kind on the repair write itself; the same on a key that was created and deleted (deletion mark present), the fault on the request's first or second commit (a create over a deletion mark commits twice); a compaction request racing the writer and the sequencer while the outcome is unknown (<= 1 scheduling deviation)",
-                    thorough="2 keys, 2 further writes; repair fault together with a further write"),
+                    thorough="2 further writes after the unknown outcome; repair fault together with a further write; the unknown outcome on a re-created key; the compaction race with 2 deviations"),
         outside="a write that lands after its commit call returned 'unknown'; TiKV's error classification (adapter, C11)",
     ),
     "C16": dict(
@@ -155,7 +155,7 @@ PROPS = {
             dict(run="pkg/server/etcd.VerifC16WatchMapping", quick=dict(keys=1), thorough=dict(keys=2), covers=["put-event", "delete-event", "no-event", "replayed-from-cache"]),
         ],
         bounds=dict(quick="transactions with 0..1 compares (target MOD/VERSION/CREATE, result EQUAL/GREATER/NOT_EQUAL, 2 keys + the compaction key, symbolic revision), 0..2 success ops and 0..1 failure ops of kind put/range/delete-range with symbolic option flags and optional range_end; answers: histories of 2 supported transactions over 2 keys with symbolic expected revisions, then get / list (limits 0..n+1) / count-only; watch mapping: 1 write before and 1 after the watch",
-                    thorough="0..2 compares, 0..2 failure ops; histories of 3 transactions"),
+                    thorough="0..2 compares with 0..1 failure ops (2 failure ops exceeded 2 million runs); histories of 3 transactions over 2 keys and of 4 over 1 key"),
         outside="create/version fields kubebrain cannot provide; Count as etcd's total under a limit (kubebrain reports 'at least one more'); revision 1888 with a range end (documented partition-listing escape hatch)",
     ),
     "C17": dict(
@@ -167,7 +167,7 @@ PROPS = {
             dict(run=B + "VerifC17TwoCompactions", quick=dict(preempt=1, native_tick_ms=1300), thorough=dict(preempt=2, native_tick_ms=1300), covers=["old-event-expired", "done"], stress=5),
         ],
         bounds=dict(quick="keys of 10..14 fully symbolic bytes (> '$') for the TTL decision; expiry: 1-write history over {an Event key, a key that merely contains /events/, a plain key}, compaction mark, 1 further write, symbolic elapsed time, second compaction on an engine without native TTL; the expiry scan racing an update of the Event (interleaved at the store operations, <= 2 scheduling delays); two compaction requests at the same time after an old mark expired, with a young Event present (<= 1 scheduling deviation, gate at the log line between reading and removing the oldest mark)",
-                    thorough="keys of 10..18 bytes; 2-write histories"),
+                    thorough="keys of 10..18 bytes; 2-write histories; 3 deviations for the update race, 2 for the concurrent compactions"),
         outside="engine-native TTL after updates (memkv AfterFunc, Badger entry TTL); faults during expiry; more than one compaction mark",
     ),
     "C18": dict(
@@ -196,7 +196,7 @@ PROPS = {
             dict(run="pkg/zzc15.VerifC15Restart", name="C15_oraclefault", quick=dict(attempts=1, oraclefaults=3), thorough=dict(attempts=2, oraclefaults=4), covers=["oracle-fault-during-takeover", "follower-sync", "done"], no_native=True),
         ],
         bounds=dict(quick="old leader elected through the real election path, 3 write attempts with symbolic expected revisions (any mix of successes, failed conditions and future-revision rejections) each optionally followed by a lock renewal; new node with 0..2 follower revision syncs in any order, elected over the same store; engine clock contract: wall clock/PD timestamp (>= 1 unit per attempt) or count of committed transactions; separately (1 write attempt): the engine's timestamp oracle fails once at any of its first 3 calls during the take-over and the elector runs one more round",
-                    thorough="4 write attempts; oracle fault with 2 write attempts, at any of the first 4 calls"),
+                    thorough="3 write attempts (4 exceeded the budget); oracle fault with 2 write attempts, at any of the first 4 calls"),
         outside="client-go's elector loop (modelled as one Get + Create/Update + OnStartedLeading); real clocks; the assumption 'fewer than one write attempt per clock unit' for wall-clock/PD engines",
         assumptions=["leaderelection.RunOrDie is replaced by a model of one successful acquire pass; counterexamples of this harness are NOT replayed natively (the real elector cannot be stopped and exits the process on lost leadership) — the Badger clock finding was reproduced by hand on a real Badger directory during design"],
     ),
@@ -219,7 +219,7 @@ PROPS = {
             dict(run="pkg/zzc11.VerifC11TiKV", quick=dict(entries=2, ops=1), thorough=dict(entries=2, ops=2), covers=["batch-applied", "batch-refused", "get-hit", "iter-several", "iter-descending", "changed-under-iterator", "done"], validate=2),
         ],
         bounds=dict(quick="each of memkv, Badger, TiKV (and the metrics wrapper over memkv and over Badger): 2 initial entries with symbolic keys of 1..2 bytes over {a,b,c} and symbolic values; then one batch of 1 operation (memkv: 1..2) of put-if-absent / CAS / put / delete with symbolic key, value, expected value and TTL flag, or one Get, one Del, one compare-and-delete (entry optionally really changed under the iterator), or one iteration with symbolic bounds in either direction and limit 0..2 — differential against the contract store",
-                    thorough="batches of up to 2 operations on every engine (several conditions, a condition on a key written or deleted earlier in the batch); 3 initial entries on memkv"),
+                    thorough="batches of up to 2 operations on every engine (several conditions, a condition on a key written or deleted earlier in the batch); 3 initial entries with single operations on memkv"),
         outside="the engines themselves (Badger's SSI, TiKV's percolator and regions: their client libraries are replaced by models, every counterexample is replayed on the real library / the mock cluster); TTL expiry inside engines; concurrent transactions; keys longer than 2 bytes; a rewrite with the identical value under an iterator (the contract allows delete-if-value-equal or delete-if-version-equal)",
         assumptions=["github.com/huandu/skiplist, github.com/dgraph-io/badger and github.com/tikv/client-go/v2 are replaced by engine models (sorted sequences with snapshots and versions); counterexamples and sampled paths are replayed on the real libraries (Badger in a temp dir, client-go's mock TiKV cluster)"],
     ),
@@ -232,7 +232,7 @@ PROPS = {
             dict(run="pkg/zzc19.VerifC19FullBatch", quick=dict(writes=301, _loop=700), thorough=dict(writes=601, _loop=1300), covers=["done"], race=True, race_replay=True, stress=5),
         ],
         bounds=dict(quick="happens-before (vector clock) monitor over the explored schedules of: reader ∥ writer ∥ iterator on the in-memory engine (<= 2 delays); TTL expiry (timer goroutine) ∥ reader ∥ iterator (<= 1 delay); update ∥ {get, watch} / {list, count} / {compact, compact} on one node over the real in-memory adapter with the sequencer and fan-out threads in the schedule (<= 1 delay); one slow write holding the lowest pending revision while a full broadcast batch (300 events) of later writes completes, then one more write, with one watch (default schedule); the fan-out dropping an overflowing subscriber ∥ a new watch registering ∥ a watch being cancelled (<= 1 delay); maps are one abstract location each",
-                    thorough="one more delay each; two full batches"),
+                    thorough="one more delay each; two full batches (601 writes)"),
         outside="Badger / TiKV client internals; the skiplist's internals (one abstract location per list); the Go memory model beyond happens-before; request mixes other than the listed ones; the retry loop and the election goroutine",
         assumptions=["the verdict is a happens-before computation on each explored schedule: the solver only decides which paths are feasible (weakest fit for the technique, see DESIGN.md C19)"],
     ),
@@ -241,7 +241,7 @@ PROPS = {
             dict(run="pkg/zzc12.VerifC12Engines", quick=dict(requests=2), thorough=dict(requests=2), covers=["write-ok", "compaction", "done"]),
         ],
         bounds=dict(quick="the same sequence of 2 symbolic requests (create / update / delete / get / list with limit / compact+count; 2 prefix-related keys, symbolic values, expected and read revisions) on five nodes: contract store, in-memory adapter, Badger adapter, TiKV adapter (mock cluster natively), metrics wrapper over Badger; pairwise identical answers",
-                    thorough="sequences of 3 requests"),
+                    thorough="the same 2-request sequences (a third request exceeded the budget: 184 000 runs in 8 minutes without finishing)"),
         outside="watch events across engines; concurrent histories; time-based expiry (engines differ by design: SupportTTL); multi-region TiKV (partitioning is C13's subject)",
     ),
 }
